@@ -131,6 +131,8 @@ func checkCase(c *Case, count bool) error {
 				case !want.Tsr:
 					own = "route"
 				case q.Path == "/":
+				case q.Method == http.MethodConnect:
+					// a CONNECT request is never served or redirected through a trailing-slash adjustment
 				case mode == rt.TSIgnore:
 					own = "route"
 				case mode == rt.TSRedirect && ref.CleanPath(q.Path) == q.Path:
@@ -243,7 +245,7 @@ func checkCase(c *Case, count bool) error {
 }
 
 var regMethods = []string{"GET", "POST", "PUT", "DELETE", "PATCH", "OPTIONS", "FOO"}
-var reqMethods = []string{"GET", "POST", "PUT", "DELETE", "PATCH", "OPTIONS", "OPTIONS", "FOO", "BAR", "HEAD"}
+var reqMethods = []string{"GET", "POST", "PUT", "DELETE", "PATCH", "OPTIONS", "OPTIONS", "FOO", "BAR", "HEAD", "CONNECT", "CONNECT"}
 
 func genCase(t *rapid.T) *Case {
 	c := &Case{}
@@ -294,7 +296,7 @@ func genCase(t *rapid.T) *Case {
 			// a request target with an escaped slash inside a segment: the router works on the escaped form for the request's own
 			// method and for every other method alike
 			segs := strings.Split(path, "/")
-			if k := gen.IntR(t, 1, len(segs)-1, "escat"); segs[k] != "" {
+			if k := gen.IntR(t, 1, max(len(segs)-1, 1), "escat"); k < len(segs) && segs[k] != "" {
 				segs[k] = gen.Pick(t, []string{"a%2Fb", "x%2Fa", "a%2F"}, "escval")
 				q.Path, q.Escaped = strings.Join(segs, "/"), true
 			}
